@@ -211,11 +211,16 @@ func VerifC18StreamReplay(v *vrt.T) {
 	// nanosecond of the epoch, an instant before 1970; the second point follows after
 	// 1s+1ns, 0 or 1ns — or lies 10s BEFORE the first one (a late arrival in a live
 	// recording: recordings are in arrival order, not in time order).
-	tc := v.Choose("times", 4)
-	t1 := time.Unix(0, []int64{verifC18Base, 1, verifT1960 - 1, verifC18Base}[tc]).UTC()
+	// tc == 4: the second point has no time set (the zero Time): it is recorded as a line
+	// without a timestamp and replayed with the zero Time again (recorded-time mode).
+	tc := v.Choose("times", 5)
+	t1 := time.Unix(0, []int64{verifC18Base, 1, verifT1960 - 1, verifC18Base, verifC18Base}[tc]).UTC()
 	sent := []edge.PointMessage{edge.NewPointMessage(name, db, rp, models.Dimensions{}, fields, models.Tags{tagk: tagv}, t1)}
 	if v.Bound("points", 2) > 1 {
-		t2 := t1.Add([]time.Duration{time.Second + 1, 0, 1, -10 * time.Second}[tc])
+		t2 := t1.Add([]time.Duration{time.Second + 1, 0, 1, -10 * time.Second, 0}[tc])
+		if tc == 4 {
+			t2 = time.Time{}
+		}
 		sent = append(sent, edge.NewPointMessage("m2", "db2", "rp2", models.Dimensions{}, models.Fields{"g": int64(7)}, nil, t2))
 	}
 
@@ -225,6 +230,9 @@ func VerifC18StreamReplay(v *vrt.T) {
 	}
 
 	recTime := v.Bool("recorded times")
+	if tc == 4 {
+		v.Assume(recTime) // shifting the zero Time is outside this harness
+	}
 	clk := &verifReplayClock{zero: time.Unix(0, verifT2020+86400e9).UTC()}
 	col := &verifStreamCollector{}
 	err := <-ReplayStreamFromIO(clk, file, col, recTime, "n")
